@@ -492,3 +492,202 @@ Proof.
       destruct (s_timer (fst (run_sm c script))); try (elim T; reflexivity); reflexivity.
     + rewrite Pc. rewrite orb_true_r. reflexivity.
 Qed.
+
+(** * The F-C14a region narrowed: a timer that fires after the outcome is settled is harmless
+
+    Once the process has exited and every reader has had its EOF, run() is over;
+    whatever the script contains afterwards (timer expiries included) changes
+    nothing.  So the defect region is only: the timer fires after the exit but
+    BEFORE the last reader's EOF. *)
+
+(** shortest prefix that contains the exit and the EOF of every existing reader *)
+Fixpoint done_prefix (pty : bool) (x o e : bool) (script : list ev) : option (list ev * list ev) :=
+  if x && o && (pty || e) then Some ([], script) else
+  match script with
+  | [] => None
+  | ev0 :: r =>
+      let x' := x || match ev0 with EExit _ => true | _ => false end in
+      let o' := o || is_eof WOut ev0 in
+      let e' := e || is_eof WErr ev0 in
+      match done_prefix pty x' o' e' r with
+      | Some (pre, post) => Some (ev0 :: pre, post)
+      | None => None
+      end
+  end.
+
+Lemma done_prefix_app pty : forall script x o e pre post,
+  done_prefix pty x o e script = Some (pre, post) -> script = pre ++ post.
+Proof.
+  induction script as [|ev0 r IH]; intros x o e pre post; cbn [done_prefix].
+  - destruct (x && o && (pty || e)); intros H; inversion H; reflexivity.
+  - destruct (x && o && (pty || e)); [intros H; inversion H; reflexivity|].
+    destruct (done_prefix pty _ _ _ r) as [[p q]|] eqn:D; intros H; inversion H; subst.
+    cbn. f_equal. apply (IH _ _ _ _ _ D).
+Qed.
+
+(** after [pre]: exit seen, both readers not running *)
+Lemma run_events_app c s a b : run_events c s (a ++ b) = run_events c (run_events c s a) b.
+Proof. unfold run_events. apply fold_left_app. Qed.
+
+Lemma worker_stays_down c w : w <> WIn -> forall script k n,
+  Inv c k -> forallb in_scope_ev script = true -> is_run (wget k w) = false ->
+  is_run (wget (fst (run_events c (k, n) script)) w) = false.
+Proof.
+  intros Hw. induction script as [|e r IH]; intros k n I Sc R; [exact R|].
+  change (run_events c (k, n) (e :: r)) with (run_events c (step c (k, n) e) r).
+  cbn [forallb] in Sc. apply andb_true_iff in Sc. destruct Sc as [Se Sr].
+  destruct (step_counts c k n e w I Se Hw) as [_ R'].
+  rewrite (surjective_pairing (step c (k, n) e)). apply IH; auto.
+  - apply (step_inv c (k, n) e I).
+  - rewrite R', R. reflexivity.
+Qed.
+
+Lemma eof_downs c w : w <> WIn -> forall script k n,
+  Inv c k -> forallb in_scope_ev script = true -> existsb (is_eof w) script = true ->
+  is_run (wget (fst (run_events c (k, n) script)) w) = false.
+Proof.
+  intros Hw. induction script as [|e r IH]; intros k n I Sc Ex; [discriminate|].
+  change (run_events c (k, n) (e :: r)) with (run_events c (step c (k, n) e) r).
+  pose proof Sc as Sc0. cbn [forallb] in Sc. apply andb_true_iff in Sc. destruct Sc as [Se Sr].
+  destruct (step_counts c k n e w I Se Hw) as [_ R'].
+  rewrite (surjective_pairing (step c (k, n) e)).
+  cbn [existsb] in Ex. destruct (is_eof w e) eqn:Ef.
+  - apply worker_stays_down; auto; [apply (step_inv c (k, n) e I)|].
+    rewrite R'. cbn. apply andb_false_r.
+  - apply IH; auto. apply (step_inv c (k, n) e I).
+Qed.
+
+Lemma done_prefix_facts pty : forall script x o e pre post,
+  done_prefix pty x o e script = Some (pre, post) ->
+  (x = true \/ existsb (fun ev0 => match ev0 with EExit _ => true | _ => false end) pre = true) /\
+  (o = true \/ existsb (is_eof WOut) pre = true) /\
+  (pty = true \/ e = true \/ existsb (is_eof WErr) pre = true).
+Proof.
+  induction script as [|ev0 r IH]; intros x o e pre post; cbn [done_prefix].
+  - destruct (x && o && (pty || e)) eqn:C; intros H; inversion H; subst.
+    apply andb_true_iff in C. destruct C as [C1 C3]. apply andb_true_iff in C1. destruct C1 as [C1 C2].
+    apply orb_true_iff in C3. tauto.
+  - destruct (x && o && (pty || e)) eqn:C.
+    + intros H; inversion H; subst.
+      apply andb_true_iff in C. destruct C as [C1 C3]. apply andb_true_iff in C1. destruct C1 as [C1 C2].
+      apply orb_true_iff in C3. tauto.
+    + destruct (done_prefix pty _ _ _ r) as [[p q]|] eqn:D; intros H; inversion H; subst.
+      destruct (IH _ _ _ _ _ D) as (A1 & A2 & A3). cbn [existsb].
+      repeat split.
+      * destruct A1 as [A1|A1]; [apply orb_true_iff in A1; destruct A1 as [A1|A1]; [left; exact A1|right; rewrite A1; reflexivity] | right; rewrite A1; apply orb_true_r].
+      * destruct A2 as [A2|A2]; [apply orb_true_iff in A2; destruct A2 as [A2|A2]; [left; exact A2|right; rewrite A2; reflexivity] | right; rewrite A2; apply orb_true_r].
+      * destruct A3 as [A3|[A3|A3]]; [left; exact A3 | | right; right; rewrite A3; apply orb_true_r].
+        apply orb_true_iff in A3. destruct A3 as [A3|A3]; [right; left; exact A3 | right; right; rewrite A3; reflexivity].
+Qed.
+
+Lemma forallb_app_l {A} (f : A -> bool) a b : forallb f (a ++ b) = true -> forallb f a = true /\ forallb f b = true.
+Proof. rewrite forallb_app. intros H. apply andb_true_iff in H. exact H. Qed.
+
+Lemma exit_code_of_exists pre :
+  has_kbd pre = false -> existsb (fun ev0 => match ev0 with EExit _ => true | _ => false end) pre = true ->
+  exists code, exit_code pre = Some code.
+Proof.
+  unfold exit_code. induction pre as [|e r IH]; intros K H; [discriminate|].
+  unfold has_kbd in K. cbn [existsb] in K, H. apply orb_false_iff in K. destruct K as [K1 K2].
+  destruct e; cbn; try (apply IH; [exact K2 | exact H]); try (eexists; reflexivity); try discriminate.
+Qed.
+
+Lemma exit_code_app pre post code : exit_code pre = Some code -> exit_code (pre ++ post) = Some code.
+Proof.
+  unfold exit_code. induction pre as [|e r IH]; [discriminate|]. cbn [app find].
+  destruct e; cbn; auto.
+Qed.
+
+Theorem timer_after_done_harmless c pre post :
+  start_raises c = false -> has_exc (pre ++ post) = false -> has_kbd (pre ++ post) = false ->
+  no_timer pre = true -> done_prefix (c_pty c) false false false (pre ++ post) = Some (pre, post) ->
+  exists code, exit_code (pre ++ post) = Some code /\
+    s_pc (fst (run_sm c (pre ++ post))) = PDone (normal_outcome c code) /\
+    n_kills (snd (run_sm c (pre ++ post))) = 0 /\ s_timer (fst (run_sm c (pre ++ post))) <> TArmed.
+Proof.
+  intros S X K NT DP.
+  destruct (done_prefix_facts _ _ _ _ _ _ _ DP) as (Fx & Fo & Fe).
+  destruct Fx as [Fx|Fx]; [discriminate|]. destruct Fo as [Fo|Fo]; [discriminate|].
+  pose proof (in_scope_forall _ X K) as Sc. destruct (forallb_app_l _ _ _ Sc) as [Scp Scq].
+  assert (Kp : has_kbd pre = false).
+  { unfold has_kbd in *. rewrite existsb_app in K. apply orb_false_iff in K. tauto. }
+  assert (Xp : has_exc pre = false).
+  { unfold has_exc in *. rewrite existsb_app in X. apply orb_false_iff in X. tauto. }
+  destruct (exit_code_of_exists pre Kp Fx) as [code Ex]. exists code.
+  split; [apply exit_code_app; exact Ex|].
+  unfold run_sm.
+  assert (E0 : advance c (init c) = init c).
+  { unfold advance, init. rewrite S. cbn. destruct (c_in c), (c_pty c); reflexivity. }
+  rewrite E0, run_events_app.
+  assert (I0 : Inv c (fst (init c))) by (rewrite <- E0; apply init_inv; exact S).
+  assert (P0 : s_pc (fst (init c)) = PWait) by (unfold init; rewrite S; reflexivity).
+  assert (K0 : n_kills (snd (init c)) = 0) by (unfold init; rewrite S; reflexivity).
+  pose proof (run_events_kills_zero c pre (init c) NT) as Kz. rewrite K0 in Kz.
+  assert (Ro : is_run (wget (fst (run_events c (init c) pre)) WOut) = false).
+  { rewrite (surjective_pairing (init c)). apply eof_downs; auto. discriminate. }
+  assert (Re : is_run (wget (fst (run_events c (init c) pre)) WErr) = false).
+  { rewrite (surjective_pairing (init c)).
+    destruct Fe as [Fe|[Fe|Fe]]; [| discriminate | apply eof_downs; auto; discriminate].
+    apply worker_stays_down; auto; [discriminate|]. unfold init. rewrite S, Fe. reflexivity. }
+  rewrite (surjective_pairing (init c)) in *.
+  destruct (timely_prefix c code pre (fst (init c)) (snd (init c)) I0 P0 Scp NT Ex) as (I & D & Pr & T & Pc).
+  set (s1 := run_events c (fst (init c), snd (init c)) pre) in *. clearbody s1.
+  destruct s1 as [k n]. cbn [fst snd] in *.
+  (* nobody is running any more: the outcome is settled *)
+  assert (Pd : s_pc k = PDone (normal_outcome c code)).
+  { unfold PostPc in Pc. pose proof I as [_ HI].
+    destruct (s_pc k) as [|todo cur ec|o|] eqn:P; try (elim Pc).
+    - exfalso. destruct HI as (_ & _ & _ & (w & rest & b & _ & _ & Rw)).
+      assert (Rin : is_run (s_in k) = false) by (apply (in_not_running c k I); rewrite P; discriminate).
+      cbn in Ro, Re. destruct w; cbn in Rw; congruence.
+    - rewrite Pc. reflexivity. }
+  assert (NR : running k = false) by (unfold running; rewrite Pd; reflexivity).
+  destruct (run_events_over c post (k, n) NR) as (A & _ & Kq). cbn [fst snd] in A, Kq.
+  assert (Dr : drain c (run_events c (k, n) post) = run_events c (k, n) post).
+  { unfold drain. rewrite A, NR. reflexivity. }
+  rewrite Dr, A, Kq. repeat split; auto.
+  rewrite Pd in T. exact T.
+Qed.
+
+Definition timers_only_after_done (c : cfg) (script : list ev) : bool :=
+  match done_prefix (c_pty c) false false false script with
+  | Some (pre, _) => no_timer pre
+  | None => no_timer script
+  end.
+
+(** F-C14a narrowed: the timer fires after the exit and before the last reader's EOF *)
+Definition guard14_narrow (c : cfg) (script : list ev) : bool :=
+  negb (c_timeout c &&
+        match first_of script with FinishedFirst => negb (timers_only_after_done c script) | _ => false end) &&
+  negb (c_timeout c && (c_hold_out c || c_hold_err c) &&
+        match first_of script with ExpiredWhileRunning => true | _ => false end).
+
+Theorem run_meets_spec14_narrow c script :
+  guard14_narrow c script = true -> C14Spec.spec_ok c script (observe (run_sm c script)) = true.
+Proof.
+  unfold guard14_narrow. intros G.
+  destruct (c_timeout c) eqn:CT.
+  2:{ apply run_meets_spec14. unfold guard14. rewrite CT. reflexivity. }
+  destruct (first_of script) eqn:Fo.
+  - apply run_meets_spec14. unfold guard14. rewrite CT, Fo. exact G.
+  - apply run_meets_spec14. unfold guard14. rewrite CT, Fo. exact G.
+  - rewrite andb_false_r in G. cbn [andb negb] in G. rewrite andb_true_r in G. apply negb_true_iff in G. apply negb_false_iff in G.
+    unfold timers_only_after_done in G.
+    destruct (done_prefix (c_pty c) false false false script) as [[pre post]|] eqn:DP.
+    2:{ apply run_meets_spec14. unfold guard14. rewrite CT, Fo. rewrite andb_false_r. cbn [andb negb].
+        rewrite andb_true_r. apply negb_true_iff. clear - G. unfold no_timer in G.
+        induction script as [|e r IH]; [reflexivity|]. cbn [forallb existsb] in *.
+        apply andb_true_iff in G. destruct G as [G1 G2]. rewrite (IH G2), orb_false_r.
+        destruct e; try reflexivity; discriminate. }
+    pose proof (done_prefix_app _ _ _ _ _ _ _ DP) as Es. subst script.
+    unfold C14Spec.spec_ok. destruct (in_scope c (pre ++ post)) eqn:Sc; [|reflexivity]. cbn [negb].
+    unfold in_scope in Sc. apply andb_true_iff in Sc. destruct Sc as [Sc K].
+    apply andb_true_iff in Sc. destruct Sc as [SF X].
+    apply negb_true_iff in SF. apply negb_true_iff in X. apply negb_true_iff in K.
+    assert (S : start_raises c = false) by (unfold start_raises; rewrite SF; reflexivity).
+    rewrite CT, Fo. cbn [negb].
+    destruct (timer_after_done_harmless c pre post S X K G DP) as (code & Ex & P & Kz & T).
+    unfold observe. cbn [o_kills o_outcome o_timer_armed]. rewrite Kz, Ex, P. cbn [Nat.eqb andb].
+    unfold normal_outcome. rewrite outcome_eqb_refl.
+    destruct (s_timer (fst (run_sm c (pre ++ post)))); try (elim T; reflexivity); reflexivity.
+Qed.
